@@ -272,7 +272,7 @@ func (s *shape) referrers(n string) []*node {
 }
 
 var shapeNames = []string{"img", "dup", "idx2", "nested", "art", "artidx", "bentry", "docker", "schema1",
-	"ext", "empty", "inline", "dtag", "loop", "big"}
+	"ext", "empty", "inline", "dtag", "loop", "big", "xref"}
 
 func buildShape(name string) *shape {
 	s := newShape(name)
@@ -292,13 +292,14 @@ func buildShape(name string) *shape {
 		m2 := s.image("M2", false, L(c2), []lref{L(l)}, nil, "")
 		s.index("I", false, []lref{{m1, dopt{plat: "linux/amd64"}}, {m2, dopt{plat: "linux/arm64"}}}, nil, "")
 		s.Root = "I"
-	case "nested": // index holding an index and an image; the two leaf images share a layer
+	case "nested": // three levels of indexes: O -> N -> I -> M1, and O -> M2; the two leaf images share a layer
 		l1 := s.blob("L1", 333)
 		c1, c2 := s.config("C1", "amd64"), s.config("C2", "arm64")
 		m1 := s.image("M1", false, L(c1), []lref{L(l1)}, nil, "")
 		m2 := s.image("M2", false, L(c2), []lref{L(l1)}, nil, "")
 		i := s.index("I", false, []lref{{m1, dopt{plat: "linux/amd64"}}}, nil, "")
-		s.index("O", false, []lref{{i, dopt{}}, {m2, dopt{plat: "linux/arm64"}}}, nil, "")
+		n := s.index("N", false, []lref{{i, dopt{plat: "linux/amd64"}}}, nil, "")
+		s.index("O", false, []lref{{n, dopt{plat: "linux/amd64"}}, {m2, dopt{plat: "linux/arm64"}}}, nil, "")
 		s.Root = "O"
 	case "art": // image with two referrers of different artifact types, one of them with a referrer of its own
 		c, l1 := s.config("C", "amd64"), s.blob("L1", 200)
@@ -365,6 +366,15 @@ func buildShape(name string) *shape {
 		s.addDTag(m, sg, ".sig")
 		s.addDTag(sg, m, ".att")
 		s.Root = "M"
+	case "xref": // two platform images whose referrers are indexes that list the *other* platform image
+		l1 := s.blob("L1", 100)
+		c1, c2 := s.config("C1", "amd64"), s.config("C2", "arm64")
+		m1 := s.image("M1", false, L(c1), []lref{L(l1)}, nil, "")
+		m2 := s.image("M2", false, L(c2), []lref{L(l1)}, nil, "")
+		s.index("I", false, []lref{{m1, dopt{plat: "linux/amd64"}}, {m2, dopt{plat: "linux/arm64"}}}, nil, "")
+		s.index("X1", false, []lref{{m2, dopt{plat: "linux/arm64"}}}, m1, atSig)
+		s.index("X2", false, []lref{{m1, dopt{plat: "linux/amd64"}}}, m2, atSig)
+		s.Root = "I"
 	case "big": // one layer large enough that writing it takes a while (demonstrates findings/C04-1 reliably)
 		c, lb, l2 := s.config("C", "amd64"), s.blob("LB", 6<<20), s.blob("L2", 64)
 		s.image("M", false, L(c), []lref{L(lb), L(l2)}, nil, "")
